@@ -1,8 +1,13 @@
 #!/usr/bin/env python3
-"""Re-run the registered quick checks against every archived seeded mutation (apply to /repo, check, undo) and update meta.json.
-usage: tools/seed_recheck.py [seed-id ...]"""
+"""Re-run the registered quick checks against every archived seeded mutation and update meta.json.
+
+Each worker owns a scratch copy of /repo's committed HEAD under ~/.bsa-seeds/w<k>/repo (never /repo itself): apply the patch there, run
+`./check <prop> --tier quick --repo <scratch>` with a private evidence directory, reverse the patch.
+usage: tools/seed_recheck.py [-j N] [seed-id ...]"""
 import json, os, shutil, subprocess, sys, time
+from concurrent.futures import ThreadPoolExecutor
 VERIF = os.path.dirname(os.path.dirname(os.path.abspath(__file__)))
+ROOT = os.path.expanduser("~/.bsa-seeds")
 
 
 def sh(cmd, cwd=None, env=None):
@@ -10,38 +15,78 @@ def sh(cmd, cwd=None, env=None):
     return r.returncode, r.stdout
 
 
-def main():
-    ids = sys.argv[1:] or sorted(os.listdir(os.path.join(VERIF, "seeded")))
-    rc, st = sh("git -C /repo status --porcelain")
-    if st.strip():
-        print("/repo is dirty, refusing"); return 1
-    bad = 0
+def scratch(k):
+    d = os.path.join(ROOT, "w%d" % k, "repo")
+    shutil.rmtree(os.path.dirname(d), ignore_errors=True)
+    os.makedirs(d)
+    p1 = subprocess.Popen(["git", "-C", "/repo", "archive", "HEAD"], stdout=subprocess.PIPE)
+    subprocess.check_call(["tar", "-x", "-C", d], stdin=p1.stdout)
+    p1.wait()
+    return d
+
+
+def work(k, ids):
+    repo = scratch(k)
+    ev = os.path.join(ROOT, "w%d" % k, "evidence")
+    os.makedirs(ev, exist_ok=True)
+    out_lines = []
     for sid in ids:
         d = os.path.join(VERIF, "seeded", sid)
         mp = os.path.join(d, "meta.json")
         if not os.path.exists(mp):
             continue
         meta = json.load(open(mp))
-        rc, ap = sh("git -C /repo apply %s" % os.path.join(d, "patch.diff"))
+        patch = os.path.join(d, "patch.diff")
+        rc, ap = sh("patch -p1 --no-backup-if-mismatch -s < %s" % patch, cwd=repo)
         if rc != 0:
-            print(sid, "patch no longer applies:", ap.strip()[:200]); bad += 1; continue
+            out_lines.append("%s patch no longer applies: %s" % (sid, ap.strip()[:200]))
+            sh("patch -p1 -R --no-backup-if-mismatch -s < %s" % patch, cwd=repo)
+            scratch(k)
+            continue
         try:
-            ev = os.path.join(os.path.expanduser("~"), ".bsa-seed-evidence")
-            os.makedirs(ev, exist_ok=True)
             for p in list(meta["checks"].keys()) or [meta["property"]]:
                 t0 = time.time()
-                rc, out = sh("./check %s --tier quick" % p, cwd=VERIF, env=dict(os.environ, BSA_EVIDENCE_DIR=ev))
+                rc, out = sh("./check %s --tier quick --repo %s" % (p, repo), cwd=VERIF, env=dict(os.environ, BSA_EVIDENCE_DIR=ev))
                 keys = [l.split()[1] for l in out.split("\n") if l.startswith("FINDING ")]
                 meta["checks"][p] = {"exit": rc, "violation": "VIOLATION property=%s" % p in out, "finding_keys": keys[:12], "wall_s": round(time.time() - t0, 1)}
         finally:
-            sh("git -C /repo checkout -- .")
-            shutil.rmtree(ev, ignore_errors=True)
+            rc, _ = sh("patch -p1 -R --no-backup-if-mismatch -s < %s" % patch, cwd=repo)
+            if rc != 0:
+                scratch(k)
         meta["caught_by_registered_check"] = bool(meta["checks"].get(meta["property"], {}).get("violation"))
         meta["caught_by"] = sorted(p for p, c in meta["checks"].items() if c["violation"])
         json.dump(meta, open(mp, "w"), indent=1)
-        print("%-36s %-4s caught=%s by %s  keys=%s" % (sid, meta["property"], meta["caught_by_registered_check"], meta["caught_by"], meta["checks"][meta["property"]]["finding_keys"][:2]))
-        if not meta["caught_by_registered_check"]:
-            bad += 1
+        out_lines.append("%-42s %-4s caught=%s by %s  keys=%s" % (sid, meta["property"], meta["caught_by_registered_check"], meta["caught_by"],
+                                                                     meta["checks"][meta["property"]]["finding_keys"][:2]))
+        print(out_lines[-1], flush=True)
+    return out_lines
+
+
+def main():
+    args = sys.argv[1:]
+    jobs = 6
+    if "-j" in args:
+        jobs = int(args[args.index("-j") + 1])
+        del args[args.index("-j"):args.index("-j") + 2]
+    ids = args or sorted(os.listdir(os.path.join(VERIF, "seeded")))
+    jobs = max(1, min(jobs, len(ids)))
+    chunks = [ids[i::jobs] for i in range(jobs)]
+    try:
+        with ThreadPoolExecutor(jobs) as ex:
+            res = list(ex.map(lambda a: work(*a), enumerate(chunks)))
+    finally:
+        shutil.rmtree(ROOT, ignore_errors=True)
+        # the scratch copies' private cargo target directories live under build/
+        import hashlib
+        for k in range(jobs):
+            tag = hashlib.sha256(os.path.abspath(os.path.join(ROOT, "w%d" % k, "repo")).encode()).hexdigest()[:8]
+            shutil.rmtree(os.path.join(VERIF, "build", "target-" + tag), ignore_errors=True)
+    lines = [l for r in res for l in r]
+    n_ok = sum(1 for l in lines if "caught=True" in l)
+    print("seeds: %d, caught: %d, not caught / not applicable: %d" % (len(lines), n_ok, len(lines) - n_ok))
+    for l in lines:
+        if "caught=True" not in l:
+            print("  !!", l)
     return 0
 
 
